@@ -516,6 +516,8 @@ class Discharger:
             i = const_of(idx)
             if i is None:
                 return None
+            if const_of(ln) is not None and i < const_of(ln):
+                return 'D1', 'constant index %d < array length %d' % (i, const_of(ln))
             if ln[0] == 'len':
                 r = ln[1]
                 n = ref_len(a, facts, r, p)
@@ -545,6 +547,14 @@ class Discharger:
             return None
         if kind == 'assert:overflow:Add':
             l, r = a.val_op(t['ops'][0], p), a.val_op(t['ops'][1], p)
+            # x + 1 under a dominating comparison that excludes x == MAX (and x > MAX cannot be)
+            for x, c in ((l, r), (r, l)):
+                if c[0] == 'const' and c[2] == 1 and c[1] in ('u64', 'usize', 'u32', 'u16', 'u8'):
+                    from .common import cmp_guard
+                    mx = ('const', c[1], (1 << {'u64': 64, 'usize': 64, 'u32': 32, 'u16': 16, 'u8': 8}[c[1]]) - 1)
+                    g = cmp_guard(a, bi, x, mx)
+                    if g['guards'] >= 1 and g['lt'] and not g['eq']:
+                        return 'D5', 'x + 1 under a dominating comparison that excludes x == %s::MAX' % c[1]
             lb, rb = len_term_bounds(a, facts, l, p), len_term_bounds(a, facts, r, p)
             if lb and rb:
                 for x, y in ((lb, rb), (rb, lb)):
@@ -776,6 +786,15 @@ class Discharger:
                 raws = [im['types']['OutputSize']['raw'] for im in facts.impls if im.get('trait') == 'Serializable' and im['self_ty'] == k[4][2]]
                 if raws and n_dst is not None and (n_dst == raws[0] or n_dst == typenum_usize(raws[0])):
                     return 'D5', 'the tail x[len - Nt ..] has Nt bytes = the tag buffer'
+        # dst = buf[s..e] with e - s = len(src) by linear arithmetic over constants and lengths
+        if dst[0] == 'addr' and dst[2] and dst[2][-1][0] == 'slice' and dst[2][-1][2] is not None:
+            from .hpketerms import lin
+            s_, e_ = lin(dst[2][-1][1]), lin(dst[2][-1][2])
+            if s_ is not None and e_ is not None:
+                d = {k: e_.get(k, 0) - s_.get(k, 0) for k in set(s_) | set(e_)}
+                d = {k: x for k, x in d.items() if x}
+                if d == {('len', strip_sites(src)): 1}:
+                    return 'D4', 'destination range [s..s + src.len()] has exactly the source length'
         # seal(): ranges of the vec allocated as len(pt) + Nt
         if dst[0] == 'addr' and dst[2] and dst[2][-1][0] == 'slice':
             lo, hi = dst[2][-1][1], dst[2][-1][2]
@@ -882,7 +901,8 @@ def run(ctx):
     D = Discharger(rep, facts, reach)
     nch = D.verify_chains()
     nk = len([f for f in ('x25519', 'p256', 'p384', 'p521') if f in feats])
-    rep.floor('R13.3', 'concat chains', nch, 1 + 6 * nk)
+    # the six chains of each KEM expansion; the key-schedule context may also be laid out by hand (then it is no chain)
+    rep.floor('R13.3', 'concat chains', nch, max(1, 4 * nk))
     total = 0
     by_rule = {}
     frozen = []
